@@ -7,6 +7,7 @@ from props.base import Context  # noqa: F401
 
 PID = 'C16'
 TIE_MODULES = []
+NEEDS = []
 ASSUMPTIONS = [
     'Python bytes.split / bytes.endswith / slicing are modelled by Diffx.pySplit, List.isSuffixOf, List.take (validated by the exhaustive correspondence run)',
     'theorems assume a non-empty unbordered newline; C16_library_newlines proves the ten newline byte sequences the library uses satisfy this',
